@@ -6,9 +6,10 @@ from fractions import Fraction as F
 import numpy as np
 from core import cn, cq, cb, clist, copt
 
-CASE_HEADER = ("From Coq Require Import List ZArith QArith.\nFrom EV Require Import Cluster ClusterCase.\n"
+CASE_HEADER = ("From Coq Require Import List ZArith QArith.\nFrom EV Require Import KcGuardBase KcGuardGen KcArgs Cluster ClusterCase.\n"
                "Import ListNotations.\n")
-MODEL_TARGETS = ["Model/Cluster.vo", "Model/ClusterCase.vo"]
+MODEL_TARGETS = ["Model/Cluster.vo", "Model/ClusterCase.vo", "Model/KcArgs.vo"]
+GEN_FILES = ["Gen/KcGuardGen.v"]
 TRUSTED = ["modelled not verified: NumPy argmax/boolean-mask assignment/np.unique, the metric kernels themselves "
            "(the model receives the implementation's own distance matrix as exact rationals, C13 covers the kernels)",
            "k-medoids proposals are recorded from the implementation's RandomState and replayed in the model"]
@@ -124,9 +125,9 @@ def run_case(c):
                                        list(est.center_indices_) == list(res.center_indices))
             else:
                 kw = {}
-                if c["nclu"] is not None:
+                if c["nclu"] is not None or c.get("explicit_none"):
                     kw["n_clusters"] = c["nclu"]
-                if c["cutoff"] is not None:
+                if c["cutoff"] is not None or c.get("explicit_none"):
                     kw["dist_cutoff"] = c["cutoff"]
                 res = KC.kcenters(X, metric, init_centers=init,
                                   use_triangle_inequality=bool(c.get("ti")), **kw)
@@ -334,6 +335,10 @@ def gen_kcenters(rng, nmax=12):
         c["init"] = rng.sample(range(n), rng.randint(1, min(3, n)))
     c["form"] = "class" if rng.random() < 0.25 else "func"
     c["ti"] = (c["form"] == "func" and rng.random() < 0.5)
+    if c["form"] == "func" and rng.random() < 0.25:
+        c["explicit_none"] = True          # pass n_clusters=None / dist_cutoff=None explicitly
+        if rng.random() < 0.2:
+            c["nclu"], c["cutoff"] = None, None      # no criterion at all: must be rejected
     return c
 
 
@@ -413,6 +418,7 @@ def model_term(c, out):
                                                       clist(cc["init"], cn, "nat"), cn(n))
     if kind == "kcenters":
         body = kc(c)
+        body = body  # stopping criteria go through the translated normalisation, see coq_check
     elif kind == "assign":
         body = "(nearest_state %s %s %s)" % (Dt, clist(c["centers"], cn, "nat"), cn(n))
     elif kind == "kmedoids":
@@ -435,7 +441,26 @@ def model_term(c, out):
     return "(let M := %s in %s)" % (D_term(out), body)
 
 
+def arg_terms(c):
+    """the n_clusters / dist_cutoff arguments as passed to the function form"""
+    explicit = c.get("explicit_none") or c.get("form") == "class"
+    nc = "(NcInt %s)" % cn(c["nclu"]) if c["nclu"] is not None else ("NcNone" if explicit else "NcInf")
+    dc = "(DcVal %s)" % cq(F(c["cutoff"])) if c["cutoff"] is not None else ("DcNone" if explicit else "(DcVal (Qmake 0 1))")
+    return nc, dc
+
+
 def coq_check(c, out):
+    if c["kind"] == "kcenters" and c.get("form") != "class_invalid":
+        nc, dc = arg_terms(c)
+        n = c["n"]
+        if "res" not in out:
+            if out.get("err") == "ImproperlyConfigured":
+                return "(match effective %s %s with None => true | Some _ => false end)" % (nc, dc)
+            return None
+        run = ("kcenters_cold (Dext M %s) k r %s %s" % (cn(n), cb(bool(c.get("ti"))), cn(n))) if c.get("init") is None else \
+              ("kcenters_warm (Dext M %s) k r %s %s %s" % (cn(n), cb(bool(c.get("ti"))), clist(c["init"], cn, "nat"), cn(n)))
+        return ("(let M := %s in valid_matrix M %s && match effective %s %s with Some (k, r) => st_eqb (%s) %s "
+                "| None => false end)%%bool") % (D_term(out), cn(n), nc, dc, run, res_term(out["res"]))
     if "res" not in out:
         return None
     return "(let M := %s in valid_matrix M %s && st_eqb %s %s)%%bool" % (
@@ -463,4 +488,6 @@ def common_tags(c, out):
         t.append("explicit-proposals" if c.get("proposals") is not None else "random-proposals")
     if "err" in out:
         t.append("impl-error")
+    if c.get("explicit_none"):
+        t.append("explicit-none-args")
     return t
